@@ -2,6 +2,7 @@ import Mimium.Proofs.Interner
 import Mimium.Proofs.SessionLock
 import Mimium.Gen.HashSites
 import Mimium.Gen.SharedState
+import Mimium.Proofs.ReportCache
 /-!
 # C19 — Concurrent compilations do not interfere
 
@@ -206,3 +207,45 @@ theorem C19_shared_state_kinds :
       "per-thread-counter", "numbering-only-counter", "immutable", "diagnostic-file-cache"] := by decide
 
 end Mimium.SessionLock
+
+/-! ### rendered diagnostics: the process-wide source cache of `utils::error::report` -/
+namespace Mimium.ReportCache
+
+/-- **every rendered diagnostic shows the reporting thread's own program**: for EVERY schedule of atomic `report`
+critical sections — any number of threads, any texts, the same or different paths, any previous content of the cache —
+each diagnostic is rendered from the text of the job that reports it. -/
+theorem C19_report_renders_own_text (c : Cache) (l : List Step) (h : atomicOnly l = true) (sh : Shown)
+    (hm : sh ∈ run c l) : sh.2 = some sh.1.text :=
+  run_atomic_own l h c sh hm
+
+/-- the critical section is needed: if `report` stored the text and rendered it under two acquisitions of the lock,
+the schedule store(A) · store(B) · render(A) of two threads reporting different texts under one path renders A's
+diagnostic from B's program (this is seeded change C19c) -/
+theorem C19_report_split_protocol_interferes :
+    let a : Job := ⟨0, 7, 100⟩
+    let b : Job := ⟨1, 7, 200⟩
+    splitWellFormed [] [.store a, .store b, .render a, .render b] = true ∧
+    run [] [.store a, .store b, .render a, .render b] = [(a, some 200), (b, some 200)] := by
+  decide
+
+/-- … and only through a shared path: with different paths the same split schedule is harmless -/
+theorem C19_report_split_distinct_paths_ok :
+    let a : Job := ⟨0, 7, 100⟩
+    let b : Job := ⟨1, 8, 200⟩
+    run [] [.store a, .store b, .render a, .render b] = [(a, some 100), (b, some 200)] := by
+  decide
+
+/-- tie (translator, regenerated from `utils/error.rs` on every run): `report` takes the cache's mutex once and that
+critical section both stores the text and renders from the cache -/
+theorem C19_report_critical_section_pinned :
+    Mimium.Gen.reportCacheLocks = 1 ∧ Mimium.Gen.reportStoresAndRendersUnderOneLock = true := by
+  decide
+
+/-- non-vacuity: three threads, two of them under one path, interleaved atomic reports -/
+example :
+    let l : List Step := [.report ⟨0, 7, 100⟩, .report ⟨1, 7, 200⟩, .report ⟨0, 7, 100⟩, .report ⟨2, 9, 300⟩, .report ⟨1, 7, 200⟩]
+    atomicOnly l = true ∧ (run [(7, 999)] l).length = 5 := by
+  decide
+
+end Mimium.ReportCache
+
